@@ -79,6 +79,8 @@ func report(prop string, cfg *PropConfig, w *World, results []*FnResult, missing
 	var knownHit = map[*KnownFinding][]string{}
 	var viol []*Obligation
 	seen := map[string]bool{}
+	knownNoise := loadNameList(prop + ".unproved")
+	replaysTried := 0
 	for _, o := range all {
 		seen[o.Name] = true
 		solverTime += o.TimeS
@@ -106,6 +108,17 @@ func report(prop string, cfg *PropConfig, w *World, results []*FnResult, missing
 			// a new obligation of a function under full contract with a counterexample
 			binding++
 			viol = append(viol, o)
+		case sweepFn && !knownNoise[o.Name] && !updateBaseline && len(baseline) > 0 && replaysTried < 12:
+			// an unproved safety obligation that did not exist when the baseline was taken: only a violation if the
+			// failure replays on the real code
+			replaysTried++
+			if rp := tryReplay(w, prop, o, results); rp != nil && rp.Reproduced {
+				binding++
+				o.replay = rp
+				viol = append(viol, o)
+			} else {
+				nonBindingUndecided = append(nonBindingUndecided, o.Name+" ("+o.Result+", new, replay did not reproduce)")
+			}
 		default:
 			_ = isSweep
 			nonBindingUndecided = append(nonBindingUndecided, o.Name+" ("+o.Result+")")
@@ -122,11 +135,20 @@ func report(prop string, cfg *PropConfig, w *World, results []*FnResult, missing
 
 	if updateBaseline {
 		var lines []string
+		var noise []string
 		for _, o := range all {
 			if o.Result == "proved" {
+				if strings.HasPrefix(o.Fn, "sweep:") && o.TimeS > 1.0 {
+					noise = append(noise, o.Name)
+					continue // keep only robustly (quickly) discharged sweep obligations binding
+				}
 				lines = append(lines, o.Name)
+			} else if strings.HasPrefix(o.Fn, "sweep:") {
+				noise = append(noise, o.Name)
 			}
 		}
+		os.MkdirAll(filepath.Join(verifDir, "obligations"), 0o755)
+		os.WriteFile(filepath.Join(verifDir, "obligations", prop+".unproved"), []byte(strings.Join(noise, "\n")+"\n"), 0o644)
 		os.MkdirAll(filepath.Join(verifDir, "obligations"), 0o755)
 		os.WriteFile(filepath.Join(verifDir, "obligations", prop+".expected"), []byte(strings.Join(lines, "\n")+"\n"), 0o644)
 		fmt.Printf("baseline written: %d obligations\n", len(lines))
@@ -134,6 +156,7 @@ func report(prop string, cfg *PropConfig, w *World, results []*FnResult, missing
 
 	// replay files + VIOLATION lines
 	replayDir := filepath.Join(verifDir, "replays", prop)
+	os.RemoveAll(replayDir)
 	os.MkdirAll(replayDir, 0o755)
 	for _, o := range viol {
 		violations++
@@ -141,7 +164,10 @@ func report(prop string, cfg *PropConfig, w *World, results []*FnResult, missing
 			SolverOutput: o.Output, Model: o.Model, InBaseline: baseline[o.Name]}
 		path := filepath.Join(replayDir, safeName(o.Name)+".json")
 		suffix := " no-failing-input-found"
-		if o.Result == "refuted" && o.Model != "" {
+		if o.replay != nil {
+			rf.Replay = o.replay
+			suffix = ""
+		} else if (o.Result == "refuted" && o.Model != "") || o.Candidate != "" {
 			rp := tryReplay(w, prop, o, results)
 			rf.Replay = rp
 			if rp != nil && rp.Reproduced {
